@@ -69,6 +69,31 @@ type Sched struct {
 	last         int
 	inflight     map[*lazyproto.VerifPool]map[int]int
 	YieldKinds   map[string]int
+	trace        []byte // client id per scheduling decision
+	where        []string
+}
+
+// TraceString renders the schedule: for every decision the client that ran and the scheduling point it
+// had parked at (run-length compressed), e.g. "c0@start c1@start c0@pool.Get x3 c1@api".
+func (s *Sched) TraceString() string {
+	var sb strings.Builder
+	for i := 0; i < len(s.trace); {
+		j := i
+		for j < len(s.trace) && s.trace[j] == s.trace[i] && s.where[j] == s.where[i] {
+			j++
+		}
+		fmt.Fprintf(&sb, "c%d@%s", s.trace[i], s.where[i])
+		if j-i > 1 {
+			fmt.Fprintf(&sb, " x%d", j-i)
+		}
+		sb.WriteByte(' ')
+		i = j
+		if sb.Len() > 6000 {
+			sb.WriteString("...")
+			break
+		}
+	}
+	return sb.String()
 }
 
 // New creates a scheduler for n clients.
@@ -243,8 +268,13 @@ func (s *Sched) Run(fn func(c *Client), pick func(runnable []int) int) {
 			s.Switches++
 		}
 		s.last = id
+		s.trace = append(s.trace, byte(id))
+		if !started[id] {
+			s.where = append(s.where, "start")
+		}
 		if started[id] {
 			kind, p, x, where, _ := readReq(c)
+			s.where = append(s.where, where)
 			s.YieldKinds[where]++
 			switch kind {
 			case reqGet:
